@@ -204,6 +204,8 @@ class Engine:
             return z3.Length(v.z) > 0
         if ty == NONE:
             return z3.BoolVal(False)
+        if isinstance(ty, TRef) and self.defines_truthiness(ty.cls):
+            raise OutOfSubset(f"truthiness of a {ty.cls} object: the class (or a subclass) defines __len__ / __bool__")
         if isinstance(ty, (TRow, TRef, TFunc, TConst)):
             return z3.BoolVal(True)
         if isinstance(ty, TList):
@@ -226,6 +228,18 @@ class Engine:
             size = st.hmap(f"SSZ.{sort_key(ty.elem)}", smt.Int, smt.Int)
             return size[v.z] > 0
         raise OutOfSubset(f"truthiness of {ty}")
+
+    def defines_truthiness(self, cls):
+        """objects are truthy unless their class says otherwise: looked up in the real source on every run"""
+        for c in set(subclasses(cls)) | set(class_mro(cls)):
+            for modname in CLASS_MODULES.get(c, []):
+                try:
+                    mi = source.load(modname)
+                except Exception:
+                    continue
+                if f"{c}.__len__" in mi.functions or f"{c}.__bool__" in mi.functions:
+                    return True
+        return False
 
     def fork(self, st, cond, line=None):
         """[(state, True/False)] for the feasible sides of cond"""
